@@ -42,6 +42,16 @@ KdfContext(n) ==
     [] Kind(n) = "L1" -> [l1 |-> n[2], l2 |-> -1,   sd |-> n[2] = Top]
     [] Kind(n) = "L2" -> [l1 |-> n[2], l2 |-> n[3], sd |-> FALSE]
 
+(* One KDF application to key k with context fields (l1f, l2f): the node it   *)
+(* yields, or Garbage when no key of the hierarchy is derived that way (the  *)
+(* real KDF then returns bytes that are nobody's key).                        *)
+Garbage == <<"garbage">>
+Derive(k, l1f, l2f) ==
+  CASE Kind(k) = "L1" /\ l2f = -1 /\ l1f = k[2] - 1 /\ l1f >= 0 -> L1(l1f)
+    [] Kind(k) = "L1" /\ l1f = k[2] /\ l2f = Top -> L2(k[2], Top)
+    [] Kind(k) = "L2" /\ l1f = k[2] /\ l2f = k[3] - 1 /\ l2f >= 0 -> L2(k[2], l2f)
+    [] OTHER -> Garbage
+
 (* Distance (number of KDF applications) from s down to n, or -1.           *)
 RECURSIVE Dist(_, _)
 Dist(s, n) ==
